@@ -76,6 +76,17 @@ def _find_fail(exc: BaseException) -> BaseException | None:
         f = _find_fail(sub)
         if f is not None:
             return f
+    seen = 0
+    cur = exc
+    while cur is not None and seen < 8:
+        cur = cur.__cause__ or cur.__context__
+        seen += 1
+        if isinstance(cur, Fail):
+            return cur
+        if cur is not None and getattr(cur, "exceptions", None):
+            f = _find_fail(cur)
+            if f is not None:
+                return f
     return None
 
 
